@@ -87,10 +87,7 @@ Definition strip_zeros (s : bytes) : bytes := drop_while (ceqb "0"%char) s.
 Definition digits_cmp (a b : bytes) : comparison :=
   let a' := strip_zeros a in
   let b' := strip_zeros b in
-  match Nat.compare (length a') (length b') with
-  | Eq => bytes_cmp a' b'
-  | c => c
-  end.
+  thenc (Nat.compare (length a') (length b')) (bytes_cmp a' b').
 
 Definition z_sign (c : comparison) : Z :=
   match c with Lt => (-1)%Z | Eq => 0%Z | Gt => 1%Z end.
